@@ -76,6 +76,9 @@ def epat(t):
         return Pbind(binds(t[1]))
     if k == 'chain':
         return Pchain(Pbind(binds(t[1])), epat(t[2]))
+    if k == 'mono':
+        from sc3.seq.patterns.eventpatterns import Pmono
+        return Pmono(t[1], binds(t[3]), bool(t[2]))
     if k == 'par':
         return Ppar(*[epat(x) for x in t[1:]])
     if k == 'dur':
